@@ -13,9 +13,12 @@ RULE = ("c12s: one-question (and 0/2/3-question) DNS queries built on the wire f
         "record (0..6 records, every supported type plus NS/SOA/OPT/unknown, rdata of every length 0..5, tags without data, names not under "
         "the domain, mixed types) to the real client decoder with each downstream codec. distinct_nontrivial = distinct (side, command/"
         "record-type class, body class, query type class, owner, question count) among cases that reach the handler (not refused by Unpack)")
-EXPLANATION = ("Props/C12.v: the modelled request decoder, server dispatcher and client answer decoder are total (never the Panic outcome) for "
-               "every octet string / every answer section, a message from an address that owns no session leaves every established session "
-               "unchanged, and the response payload built for any request is bounded; the real handler and decoder run on every case.")
+EXPLANATION = ("Props/C12.v: the modelled request decoder (Wire/Requests.v), StripDomain (Wire/Name.v), the server dispatcher with its effect on the "
+               "user table (Srv/Server.v) and the client's answer decoder (Wrap/Wrap.v unwrap, Wrap/Responses.v) have no Panic outcome for any "
+               "octet string / message / answer section; every message is Ignored or Answered in every state reachable from the initial one "
+               "(wf is an invariant); sessions of other addresses are unchanged by any message (frame theorem); stored fragment sizes stay in "
+               "1..65535, the answer payload is at most max(65540, request length) octets and a later Write of n octets adds at most n chunks. "
+               "The real onMessage and the real decoder run on every case, where crashes, allocation and a follow-up write are measured.")
 TRUSTED = ["miekg/dns Unpack is used to decide which wire messages reach the handler; its model (names, rdata) is validated only differentially",
            "allocation is measured with runtime.MemStats around the handler call (bound 4 MiB per message); it is not part of the model"]
 RUN_TIMEOUT = 1800
@@ -313,7 +316,9 @@ META = {
                   "request is bounded by the fragment-size limit; the models are run against the real onMessage and the real decoder on wire-built "
                   "messages on every check, where crashes, allocation and a follow-up write are also measured directly.",
     "level_note": "Allocation and time are measured on the implementation only (runtime.MemStats, per-case time-out); the model bounds payload "
-                  "sizes. miekg/dns Unpack decides which messages reach the handler. Goroutine-level effects of a panic (process exit) are not "
-                  "modelled: the handler is called directly so that a panic is observed, not recovered.",
+                  "sizes and chunk counts. miekg/dns Unpack decides which messages reach the handler (modelled without compression pointers). "
+                  "The handler is called directly, below the recover() of handleRequest, so that a panic is observed and not swallowed. "
+                  "sort.Slice is modelled as a stable insertion sort (exact for identical questions, which is what the harness sends); the expiry "
+                  "sweep is not part of on_message (C13 covers it).",
     "technique": "Coq totality/frame proofs over decoder and dispatcher models + differential correspondence on wire-built messages",
 }
